@@ -30,6 +30,7 @@ mod c16;
 mod c17;
 mod c18;
 mod c19;
+mod c20;
 mod codec;
 
 use harness::{drive, replay, RunArgs, Tier, TrackingAlloc};
@@ -76,6 +77,8 @@ registry! {
     "C16" => c16::C16,
     "C17" => c17::C17,
     "C18" => c18::C18,
+    "C19" => c19::C19,
+    "C20" => c20::C20,
 }
 
 fn parse_tier(s: &str) -> Tier {
